@@ -442,5 +442,6 @@ void oracle_stability(World&, const Snapshot& before, bool growth_allowed, const
 void oracle_fresh_nodes(World&);                                                                // C05 generative distinctness
 
 std::string render_trace(const World&, std::size_t max_lines = 60);
+std::uint64_t structural_digest(World&, std::vector<const void*>* node_addresses = nullptr);   // C20: address-free digest of every node created
 
 }   // namespace eng
